@@ -4,10 +4,14 @@ namespace EinoV.Expected.C09
 def runAllocsChannelManager : Bool := true
 def channelsBuiltPerRun : Bool := true
 def runAllocsTaskManager : Bool := true
+def taskManagerQueueFresh : Bool := true
+def channelManagerFieldsFresh : Bool := true
+def nonFreshPerRunFields : List String := []
 def runBuildsOptMap : Bool := true
 def runCreatesStateViaRunCtx : Bool := true
 def sharedWrites : List String := []
 def alloc : EinoV.C09.Alloc :=
-  EinoV.C09.allocOf runAllocsChannelManager channelsBuiltPerRun runAllocsTaskManager
-    runBuildsOptMap runCreatesStateViaRunCtx sharedWrites
+  EinoV.C09.allocOf runAllocsChannelManager channelsBuiltPerRun channelManagerFieldsFresh
+    runAllocsTaskManager taskManagerQueueFresh runBuildsOptMap runCreatesStateViaRunCtx
+    sharedWrites nonFreshPerRunFields
 end EinoV.Expected.C09
